@@ -2,6 +2,7 @@ import McpModel.Base.Proto
 import McpModel.Conn.Render
 import McpModel.SessClose.Monitor
 import McpModel.SessClose.Wire
+import McpModel.SessClose.Calls
 /-!
 Driver for E1: replays the schedule recorded from the real `jsonrpc2.Connection` on the model, one
 atomic section per record, and compares the complete observable state after every step
@@ -214,21 +215,27 @@ def engine : Engine DState where
       -- The model's observation is "clean" plus the re-rendered counters (a counter the parser drops or
       -- misreads shows as a difference).
       match impl.splitOn " ## " with
-      | verdict :: rec :: wires =>
-        -- `wires` = the wire taps of the client and of the server (C02, decided by `SessMon.wireMon`)
-        let taps : Option (List SessMon.WireObs) := wires.mapM SessMon.parseWire
-        match SessMon.parse rec, taps with
-        | some o, some ts =>
+      | [verdict, rec, wc, ws, callsS, gorsS, extraS] =>
+        -- wc / ws = the wire taps of the client and of the server (C02, `SessMon.wireMon`); callsS = one
+        -- record per finished call (C01 / C04, `SessMon.callMon`); gorsS = per sender goroutine the messages
+        -- it issued with the handler run of each (C03, `SessMon.orderMon`)
+        match SessMon.parse rec, [wc, ws].mapM SessMon.parseWire, SessMon.parseCalls callsS, SessMon.parseGors gorsS, SessMon.parseExtra extraS with
+        | some o, some ts, some calls, some gors, some extra =>
           let pid := ((rec.splitOn " ").filterMap fun t => match t.splitOn "=" with | ["pid", v] => some v | _ => none).headD ""
           -- the harness reports only the clauses of the property under check (`pid`); so do these monitors
-          let lean5 := if pid == "" || pid == "C05" then (SessMon.sessMon o).map SessMon.SClause.text else []
-          let lean2 := if pid == "" || pid == "C02" then
-              ((ts.zip ["client", "server"]).flatMap fun (t, side) => (SessMon.wireMon t).map (SessMon.WClause.text side)).take 4
-            else []
-          let all := lean5 ++ lean2 ++ (if verdict == "clean" then [] else [verdict])
-          (d, { model := " ## ".intercalate (["clean", SessMon.render o ++ " pid=" ++ pid] ++ ts.map SessMon.renderWire),
+          let mine := fun (t : String) => pid == "" || (((t.splitOn ":").headD "").splitOn "+").contains pid
+          let lean5 := (SessMon.sessMon o).map SessMon.SClause.text
+          let lean2 := (ts.zip ["client", "server"]).flatMap fun (t, side) => (SessMon.wireMon t).map (SessMon.WClause.text side)
+          let lean14 := (SessMon.callMon calls).map fun (k, c) => SessMon.callText k c
+          let lean3 := (SessMon.orderMon gors).map SessMon.orderText
+          -- extraS = handler runs (C02 once, C05 graceful) and probes after termination (C01), `SessMon.extraMon`
+          let leanX := (SessMon.extraMon extra).map SessMon.EClause.text
+          let all := ((lean5 ++ lean2 ++ lean14 ++ lean3 ++ leanX).filter mine).eraseDups.take 4 ++ (if verdict == "clean" then [] else [verdict])
+          -- (the counters and the taps are re-rendered from the parsed record; the call and order sections are echoed)
+          (d, { model := " ## ".intercalate (["clean", SessMon.render o ++ " pid=" ++ pid] ++ ts.map SessMon.renderWire ++ [callsS, gorsS, extraS]),
                 violated := if all.isEmpty then none else some (" | ".intercalate all) })
-        | _, _ => (d, { model := "clean", violated := some (if verdict == "clean" then "LIBDISC unparsable sess record: " ++ impl else verdict) })
+        | _, _, _, _, _ => (d, { model := "clean", violated := some (if verdict == "clean" then "LIBDISC unparsable sess record: " ++ impl else verdict) })
+      | verdict :: _ :: _ => (d, { model := "clean", violated := some (if verdict == "clean" then "LIBDISC unparsable sess record: " ++ impl else verdict) })
       | _ => (d, { model := "clean", violated := if impl == "clean" then none else some impl })
     | _ =>
       match parseLabel toks with
